@@ -4,6 +4,8 @@
 
    `dangling s i`: i is a live instance and some raw reference (table slot, funcref global, code address of a
    function record) visibly reachable from it points to a collected object.
+   Globals: an exported global object points to its exporter's module engine iff `g_me` (wazero: GlobalInstance.Me,
+   wazevo yes / interpreter no); kind KGlobalC = immutable (no operation writes it), KGlobal = mutable.
    `tracked s o`: the operation places its reference through a channel on which wazero keeps the definer alive;
    C09_tracked_channels below states exactly which ones. The step function performs every write the implementation
    performs (also the untracked ones), so the two refutations are runs of the same model. *)
@@ -23,28 +25,105 @@ Theorem C09_safe_if_tracked : forall c ops, all_tracked (init c) ops = true ->
 Proof. exact safe_if_tracked. Qed.
 Print Assumptions C09_safe_if_tracked.
 
-(* ... where the tracked channels are exactly these (`involved s i h`: holder h is private to its owner, or lists
-   instance i among its involving instances, as exported/imported TABLES do and GLOBALS do not):
+(* ... where the tracked channels are exactly these. `involved s i h`: holder h is private to its owner, or LISTS instance i
+   (`lists s i h`): among its involving instances, as the TABLES i exports or imports do, or as the module engine it
+   belongs to, as a GLOBAL that i itself EXPORTS does (wazevo: GlobalInstance.Me). A global that i IMPORTS never lists i.
+     instantiation: the constant initialisers (ref.func f / global.get of an imported immutable global) of the EXPORTED
+                    globals                        - tracked iff every such global points to its exporter's module engine
+                                                     (element segments, element items `global.get g` and initialisers
+                                                     of private globals are always tracked);
      ref.func stored by instance i into its holder t (table.set/global.set/table.fill, or table.grow's initial
-                                                       value) — tracked iff the holder tracks i;
-     a copy between two holders of i                   — tracked iff the destination tracks i;
-     a parameter/result hand-over from i to j's holder — tracked iff the holder tracks j and (i = j or j imports a
+                                                       value) - tracked iff the holder tracks i;
+     a copy between two holders of i                   - tracked iff the destination tracks i (the source may be anything
+                                                         i can read: an IMPORTED IMMUTABLE global in particular);
+     a parameter/result hand-over from i (ref.func of its function, or a reference it read from one of its holders) to
+     j's holder                                        - tracked iff the holder tracks j and (i = j or j imports a
                                                          function defined by i: j's module engine points to i's),
-                                                         or the holder is a shared table that lists the sender i;
-     everything else (instantiate with its element segments, compile, clear, calls, close*, drop, gc) — always. *)
+                                                         or the holder is a shared holder that lists the sender i;
+     everything else (compile, clear, calls, close*, drop, gc) - always.
+   An immutable global cannot be the destination of anything (holder_wr: tables and mutable globals only), so importing one
+   is a tracked channel for good (C09_immutable_global_import_keeps_definer); a store by an importer into an imported
+   MUTABLE global is not (F35, C09_imported_global_refuted): the global lists its exporter, not the writer. *)
 Theorem C09_tracked_channels : forall s o, tracked s o = true <->
   match o with
-  | OSetRef i t k f => holder_acc s i t = true -> rec_ok s i f = true -> involved s i (holder_of s i t)
+  | OInstantiate sp => forall g, In g (sp_expg sp) -> g_init g = GNull \/ g_me g = true
+  | OSetRef i t k f => holder_wr s i t = true -> rec_ok s i f = true -> involved s i (holder_of s i t)
   | OGrowRef i t f => holder_acc s i t = true -> rec_ok s i f = true -> involved s i (holder_of s i t)
-  | OCopy i ts ks td kd => holder_acc s i ts = true -> holder_acc s i td = true -> involved s i (holder_of s i td)
+  | OCopy i ts ks td kd => holder_acc s i ts = true -> holder_wr s i td = true -> involved s i (holder_of s i td)
   | OPassParam i f j t k =>
-      rec_ok s i f = true -> holder_acc s j t = true ->
+      rec_ok s i f = true -> holder_wr s j t = true ->
+      (involved s j (holder_of s j t) /\ (i = j \/ In (me_of s i) (o_vis (getd s (me_of s j)))))
+      \/ shared_with s i (holder_of s j t)
+  | OPassVal i ts ks j t k =>
+      holder_acc s i ts = true -> holder_wr s j t = true ->
       (involved s j (holder_of s j t) /\ (i = j \/ In (me_of s i) (o_vis (getd s (me_of s j)))))
       \/ shared_with s i (holder_of s j t)
   | _ => True
   end.
 Proof. exact tracked_spec. Qed.
 Print Assumptions C09_tracked_channels.
+
+(* Imported IMMUTABLE funcref globals. For ALL histories - no hand-over has to be tracked: F08 and F35 may have happened
+   elsewhere - in which every exported immutable global with a non-null initialiser points to its exporter's module engine
+   (`imm_ok`; wazero: buildGlobals sets GlobalInstance.Me when the engine owns the globals): as long as an instance j with
+   the immutable global g among its globals (imported or own) is not collected, g is not collected, what g holds is a
+   function record r that j structurally reaches - through g's own edge when g is a shared global: j -> g -> exporter's module
+   engine -> r - and neither r nor the compiled module its code lives in is collected. By validation of constant
+   expressions r is a function of the exporter (ref.func f) or what an immutable global imported by the exporter holds
+   (global.get); no operation writes an immutable global (C09_tracked_channels: holder_wr). *)
+Theorem C09_immutable_global_import_keeps_definer : forall c ops, forallb imm_ok ops = true ->
+  let s := run (init c) ops in
+  forall j g r, inst_ok s j = true -> In g (o_vis (getd s j)) -> o_kind (getd s g) = KGlobalC ->
+    In (Some r) (o_slots (getd s g)) ->
+    alive s g = true /\ (owner s g = None -> sreach s g r) /\ sreach s j r /\ alive s r = true /\ o_kind (getd s r) = KFunc /\
+    (forall k, In (Some k) (o_slots (getd s r)) -> sreach s j k /\ alive s k = true).
+Proof. exact immutable_global_import_keeps_definer. Qed.
+Print Assumptions C09_immutable_global_import_keeps_definer.
+
+(* ... and under the same single condition, for ALL histories, the code address of every function record that is not
+   collected points to a compiled module that is not collected: calls through imports and exports never dangle. *)
+Theorem C09_function_records_never_dangle : forall c ops, forallb imm_ok ops = true ->
+  let s := run (init c) ops in
+  forall r k, alive s r = true -> o_kind (getd s r) = KFunc -> In (Some k) (o_slots (getd s r)) -> alive s k = true.
+Proof. exact function_records_never_dangle. Qed.
+Print Assumptions C09_function_records_never_dangle.
+
+(* "What an immutable global holds" is "what it was initialised with": in every history, an object no operation writes (a
+   function record, an immutable global) that exists after a prefix keeps its kind and its raw references through any
+   continuation. *)
+Theorem C09_immutable_never_changes : forall c ops1 ops2 g,
+  let s1 := run (init c) ops1 in
+  let s := run (init c) (ops1 ++ ops2) in
+  g < length (heap s1) -> writable (o_kind (getd s1 g)) = false ->
+  o_kind (getd s g) = o_kind (getd s1 g) /\ o_slots (getd s g) = o_slots (getd s1 g).
+Proof. exact immutable_never_changes. Qed.
+Print Assumptions C09_immutable_never_changes.
+
+(* Without that edge (immutable globals "need not be owned by the module engine"): A exports an immutable funcref global
+   initialised with ref.func A.f; M imports the global and NOTHING else, fills a table slot from it by an element item
+   `global.get g` and another by table.set (global.get g); A and its compiled module are closed, the handle dropped, one more
+   unrelated module compiled, collect. M is live, open, its handle held; the global and both slots still hold A.f; the record
+   and A's executable are collected: M's call_indirect dangles. Everything but the instantiation of A is a tracked step.
+   With the edge the same history keeps record and code alive, and collects everything once M is gone too. *)
+Theorem C09_immutable_global_without_edge_refuted :
+  let s1 := run (init true) (imm_setup false) in
+  let s := run s1 imm_close in
+  deref_ok s1 (slot s1 12 0) = true /\ deref_ok s1 (slot s1 12 1) = true /\
+  o_vis (getd s 10) = [11; 9; 8] /\ holder_of s 9 1 = 7 /\ o_kind (getd s 7) = KGlobalC /\ o_vis (getd s 7) = [] /\
+  inst_ok s 9 = true /\ open s 9 = true /\ In 9 (host s) /\ holder_acc s 9 1 = true /\
+  slot s 7 0 = Some 6 /\ slot s 12 0 = Some 6 /\ slot s 12 1 = Some 6 /\
+  alive s 6 = false /\ alive s 3 = false /\ alive s 7 = true /\
+  deref_ok s (slot s 12 0) = false /\ deref_ok s (slot s 12 1) = false /\ deref_ok s (slot s 7 0) = false /\
+  dangling s 9 /\
+  forallb imm_ok (imm_setup false ++ imm_close) = false /\
+  map (tracked_at (init true) (imm_setup false ++ imm_close)) (seq 0 10) = [true; false; true; true; true; true; true; true; true; true] /\
+  (let t := run (run (init true) (imm_setup true)) imm_close in
+   o_vis (getd t 7) = [5] /\ alive t 6 = true /\ alive t 3 = true /\ alive t 5 = true /\
+   deref_ok t (slot t 12 0) = true /\ deref_ok t (slot t 12 1) = true /\ any_dangling t = false /\
+   forallb imm_ok (imm_setup true ++ imm_close) = true /\ all_tracked (init true) (imm_setup true ++ imm_close) = true /\
+   map (alive (run t [OCloseModule 9; OCloseCompiled 8; ODrop 9; OGc])) [3; 4; 5; 6; 7; 8; 9; 12] = repeat false 8).
+Proof. exact immutable_global_without_edge_refuted. Qed.
+Print Assumptions C09_immutable_global_without_edge_refuted.
 
 (* F08 (open finding): instantiate B (private table); instantiate P importing a function of B; P.f reaches B's
    private table through a parameter; close P and its compiled module; drop; gc: B is live and open, its slot
@@ -61,9 +140,10 @@ Theorem C09_private_table_refuted :
 Proof. exact private_table_refuted. Qed.
 Print Assumptions C09_private_table_refuted.
 
-(* F08b (open finding, same class, different channel): A exports a mutable funcref global; B imports it and stores
-   ref.func B.f (the store is performed, the global tracks nobody); close B and its compiled module; drop; gc:
-   A is live and open and its global holds the address of a collected record whose executable is unmapped. *)
+(* F08b = F35 (open finding, same class, different channel): A exports a MUTABLE funcref global (pointing to A's module
+   engine); B imports it and stores ref.func B.f (the store is performed; the global lists A, not B); close B and its
+   compiled module; drop; gc: A is live and open and its global holds the address of a collected record whose executable
+   is unmapped. *)
 Theorem C09_imported_global_refuted :
   let s1 := run (init true) f08b_setup in
   let s := run s1 f08b_close in
